@@ -121,6 +121,8 @@ type world struct {
 	irKeys   []*keys.PrivateKey
 	irMaj    neotest.Signer
 	ir1      neotest.Signer
+	irMajOld neotest.Signer // majority of the previously designated keys (after prep "redesignate")
+	regen    int
 	nns, nm  util.Uint160
 	keymap   map[string][3]string // hex(key) -> shape, a, b
 	seed     int64
